@@ -51,6 +51,13 @@ class LazySource(io.BufferedIOBase):
         elif self.texture == "period3":
             start = self.pos % 3
             data = (b"abc" * (size // 3 + 2))[start : start + size]
+        elif self.texture == "noise":
+            # incompressible for every codec (the "random" texture repeats a 4 KiB block, which LZMA-class coders see through)
+            import random
+
+            first, last = self.pos // 4096, (self.pos + size + 4095) // 4096
+            buf = b"".join(random.Random(k).randbytes(4096) for k in range(first, last))
+            data = buf[self.pos - first * 4096 :][:size]
         else:
             start = self.pos % 4096
             data = (self._rnd[start:] + self._rnd * (size // 4096 + 1))[:size]
@@ -97,6 +104,11 @@ def measure(chain, n, texture, write_api, extract_api, position, wd, scale=SCALE
                 z.set_encoded_header_mode(False)
                 if position in ("last", "between"):
                     z.writestr(small, "small-before")
+                if position.startswith("after-"):
+                    # many small members in front of the big one (a source tree next to a disk image): each of them is
+                    # one short decoding call before the big member is reached
+                    for i in range(int(position.split("-")[1])):
+                        z.writestr(b"0123456789abcdef", f"s/{i:05d}")
                 if write_api == "writef":
                     z.writef(LazySource(n, texture), "big.bin")
                 else:
@@ -158,8 +170,8 @@ def run_series(s, wd):
         extrapolation is not trusted (counted, not judged)."""
     out = []
     points = []
-    n_mid, n_big = 1 << 20, 1 << 22
-    plan = [(SCALE, n_mid), (SCALE, n_big), (SCALE // 2, n_big), (SCALE // 4, n_big)]
+    n_mid, n_big = s.get("n_mid", 1 << 20), s.get("n_big", 1 << 22)
+    plan = [(SCALE, n_mid), (SCALE, n_big)] + ([] if s.get("growth_only") else [(SCALE // 2, n_big), (SCALE // 4, n_big)])
     m = {}
     for scale, n in plan:
         r = measure(s["chain"], n, s["texture"], s["write_api"], s["extract_api"], s["position"], wd, scale=scale)
@@ -168,13 +180,27 @@ def run_series(s, wd):
             return [("error", f"scale 1/{scale} n={n}: {r['error']}")], points, {}
         m[(scale, n)] = r
     notes = {}
+    control = {}
+    if s.get("growth_only"):
+        # incompressible contents fill codec windows that are NOT scaled (Brotli's 4 MiB ring buffer fills between 1 and
+        # 4 MiB of input): the same two sizes with the big member alone are the control, only growth beyond it is judged
+        for n in (n_mid, n_big):
+            r = measure(s["chain"], n, s["texture"], s["write_api"], s["extract_api"], "alone", wd, scale=SCALE)
+            points.append((SCALE, n, r.get("write_peak"), r.get("extract_peak")))
+            if "error" in r:
+                return [("error", f"control n={n}: {r['error']}")], points, {}
+            control[n] = r
     for direction in ("write", "extract"):
         k = direction + "_peak"
         grow = m[(SCALE, n_big)][k] - m[(SCALE, n_mid)][k]
+        if control:
+            grow -= max(0, control[n_big][k] - control[n_mid][k])
         if grow > BUDGET:
             out.append((direction, "memory-grows-with-member-size",
-                        f"scale 1/{SCALE}: peak {m[(SCALE, n_big)][k] // 1024} KiB at n=4 MiB vs {m[(SCALE, n_mid)][k] // 1024} KiB at n=1 MiB "
-                        f"(growth {grow // 1024} KiB > scaled budget {BUDGET // 1024} KiB = 700 MiB/{SCALE})"))
+                        f"scale 1/{SCALE}: peak {m[(SCALE, n_big)][k] // 1024} KiB at n={n_big >> 10} KiB vs {m[(SCALE, n_mid)][k] // 1024} KiB at n={n_mid >> 10} KiB "
+                        f"(growth {grow // 1024} KiB{' beyond the control series' if control else ''} > scaled budget {BUDGET // 1024} KiB = 700 MiB/{SCALE})"))
+            continue
+        if s.get("growth_only"):
             continue
         p1, p2, p3 = m[(SCALE, n_big)][k], m[(SCALE // 2, n_big)][k], m[(SCALE // 4, n_big)][k]
         s1, s2, s3 = 1 / SCALE, 2 / SCALE, 4 / SCALE
@@ -207,7 +233,10 @@ def shard(task):
                 sh.violation({"symptom": "error", "chain": s["chain"]}, f"{s['chain']}/{s['texture']}: {v[1]}", {"series": s})
             else:
                 direction, sym, msg = v
-                sh.violation({"symptom": sym, "codec": compressor_of(s["chain"])[0], "direction": direction},
+                sig = {"symptom": sym, "codec": compressor_of(s["chain"])[0], "direction": direction}
+                if s["position"].startswith("after-"):
+                    sig["layout"] = "behind-many-small-members"
+                sh.violation(sig,
                              f"{s['chain']} {s['texture']} {s['write_api']}/{s['extract_api']}/{s['position']} ({direction}): {msg}", {"series": s})
     return sh.result()
 
@@ -229,6 +258,13 @@ def main(tier="quick", seed=0, only=None):
     for c in fams:
         for t in TEXTURES:
             allseries += list(series(c, t, tier))
+    # the big (incompressible: texture 'noise') member behind 8192 sixteen-byte members of the same solid folder: 8192 short decoding calls
+    # come first (real scale: 8192 small files, then a member of 2 GiB vs 8 GiB)
+    many = ["LZMA2", "LZMA", "BZIP2", "DEFLATE", "ZSTD", "COPY", "LZMA2+AES", "X86+LZMA2"] + (["PPMD", "BROTLI", "DELTA+LZMA2", "ZSTD+AES", "X86+ZSTD"] if tier == "thorough" else [])
+    for c in many:
+        if c in chains.ALL:
+            for api in (["factory"] if tier == "quick" else ["factory", "path", "testzip"]):
+                allseries.append({"chain": c, "texture": "noise", "write_api": "writef", "extract_api": api, "position": "after-8192", "sizes": [], "growth_only": True})
     with Pool() as pool:
         res = pool.map(f"{MODULE}:shard", [[s] for s in allseries], soft=3000)
     chk.merge_pool(res)
@@ -236,8 +272,8 @@ def main(tier="quick", seed=0, only=None):
         rule=(
             f"both size constants on the data path rebound to 1/{SCALE} of their real values (I/O block {BLOCK} B, extraction chunk {CHUNK} B); "
             f"{len(fams)} chains (every codec family, BCJ/Delta prefixes, 7zAES) x textures zeros / period 3 / random x member sizes "
-            f"{[s for s in (SIZES if tier == 'thorough' else [1 << 10, 1 << 16, 1 << 20, 1 << 22])]} (2x..16000x the block) x write API (writef from a lazy source / write from a file) x "
-            "extraction API (path / null-writer factory / testzip) x position of the big member (first / last / between small ones); archive in a real "
+            f"1 MiB and 4 MiB (2048x / 8192x the block) x write API (writef from a lazy source / write from a file) x "
+            f"extraction API (path / null-writer factory / testzip) x position of the big member (first / last / between small ones; for {len(many)} chains also behind 8192 sixteen-byte members with incompressible contents); archive in a real "
             f"file. Meter: tracemalloc peak of the write session and of the read session. Oracle: peak(n) - peak(smallest n) <= {BUDGET // 1024} KiB "
             "(700 MiB scaled), i.e. no growth with member size or compression ratio. evaluations = measured (configuration, size) points; "
             "distinct_nontrivial = growth series."
